@@ -522,6 +522,10 @@ class PointWorld(BaseWorld):
         pk = pk or self.pk
         ids = q['ids']
         kw = {q['spec']: q['value']}
+        with faults.disarmed():
+            # the process-global instance is created (its constructor evaluates Psat at the bounds) outside
+            # the armed section, so that what a fault plan counts does not depend on what ran before
+            obj = pk.bp(ids) if q['kind'] == 'bubble' else pk.dp(ids)
         if q.get('via') == 'stream' or stream is not None:
             s = stream if stream is not None else self.streams[q['stream']]
             zz = self.z_of(q) if z is None else z
@@ -529,7 +533,6 @@ class PointWorld(BaseWorld):
             v = m(q['value'], IDs=tuple(ids))
         else:
             zz = np.array(q['z'], float) if z is None else z
-            obj = pk.bp(ids) if q['kind'] == 'bubble' else pk.dp(ids)
             v = obj(zz.copy(), **kw)
         comp = v.y if q['kind'] == 'bubble' else v.x
         if tuple(v.IDs) != tuple(ids):
@@ -1138,6 +1141,7 @@ class SplitWorld(BaseWorld):
             self.log[spec['name']] = []
         self.last = {}
         self.calib = {}
+        self.task = None
 
     def track(self, name, value):
         if value > self.calib.get(name, 0.0):
@@ -1281,8 +1285,16 @@ class SplitWorld(BaseWorld):
                 op = rngs.sched.choices(['lle', 'edit', 'restart', 'reset_cache'], [10, 3, 1, 1])[0]
             else:
                 op = rngs.sched.choices(['sle', 'edit', 'restart', 'reset_cache'], [10, 3, 1, 1])[0]
-            # decanter / crystalliser tasks work on one stream for a while: bias to the last stream
-            s = r.choice(names)
+            # decanter / crystalliser tasks: a task works on ONE stream for 2-6 operations (so that the
+            # solver of that stream accumulates the 1-4 earlier calls the property quantifies over),
+            # interleaved with operations of other tasks on other streams
+            if self.task is None or self.task['left'] <= 0 or self.task['stream'] not in self.streams:
+                self.task = {'stream': rngs.sched.choice(names), 'left': rngs.sched.randint(2, 6)}
+            if rngs.sched.random() < 0.75:
+                s = self.task['stream']
+                self.task['left'] -= 1
+            else:
+                s = r.choice(names)
             ev = self.candidate(op, s, r)
             if ev is None:
                 continue
@@ -1304,7 +1316,7 @@ class SplitWorld(BaseWorld):
         return {'op': 'noop'}
 
     def gen_fault(self, r):
-        return {'kind': 'solver_fail', 'site': r.choice(['aitken', 'aitken', 'fixed_point', 'wegstein']),
+        return {'kind': 'solver_fail', 'site': r.choice(['aitken', 'aitken', 'aitken', 'fixed_point']),
                 'nth': r.randint(1, 3), 'exc': r.choice(['RuntimeError', 'InfeasibleRegion', 'ValueError'])}
 
     def candidate(self, op, s, r):
@@ -1873,12 +1885,18 @@ def simplify_event(ev):
                         break
                     q2 = dict(q)
                     q2['ids'] = q['ids'][:j] + q['ids'][j + 1:]
-                    q2['z'] = q['z'][:j] + q['z'][j + 1:]
+                    zz = q['z'][:j] + q['z'][j + 1:]
+                    if sum(zz) <= 0:
+                        continue
+                    q2['z'] = [v / sum(zz) for v in zz]
                     e = dict(ev)
                     e['q'] = q2
                     out.append(e)
             z = [0.0 if v == 0 else round(v, 2) or v for v in q['z']]
-            if z != list(q['z']):
+            if op != 'scale' or True:
+                t = sum(z)
+                z = [v / t for v in z]      # keep the composition normalised (sum == 1 up to rounding)
+            if z != list(q['z']) and abs(sum(z) - 1.0) < 1e-15:
                 q2 = dict(q)
                 q2['z'] = z
                 e = dict(ev)
